@@ -8,13 +8,14 @@ EXTENDS Dag, TraceLib, Integers
 S == Ev.s
 \* several containers in one scenario (copies) - same scheme as TreeTrace.tla
 VARIABLES saved, cur
-Rec == [nodes |-> nodes, edges |-> edges, nextN |-> nextN, nextE |-> nextE, eObj |-> eObj,
+Rec == [nodes |-> nodes, edges |-> edges, nextN |-> nextN, nextE |-> nextE, eObj |-> eObj, root |-> root,
         acyclic |-> acyclic, cacheV |-> cacheV, cacheR |-> cacheR]
 NoDup(s) == Cardinality(SeqToSet(s)) = Len(s)
 Keys(ps) == {ps[i][1] : i \in DOMAIN ps}
 Val(ps, k) == ps[CHOOSE i \in DOMAIN ps : ps[i][1] = k][2]
 
 ProjRec(st, P) ==
+  /\ st.root = P.root                                           \* getRoot(): a refused rootAt must not move it
   /\ NoDup(P.n) /\ st.nodes = SeqToSet(P.n)
   /\ Keys(P.e) = DOMAIN st.edges /\ Len(P.e) = Cardinality(DOMAIN st.edges)
   /\ \A i \in DOMAIN P.e : LET x == P.e[i] IN st.edges[x[1]] = <<x[2], x[3]>>
@@ -26,16 +27,16 @@ ProjRec(st, P) ==
   /\ \A e \in DOMAIN st.eObj : Val(P.eo, e) = st.eObj[e]
   /\ Keys(P.oe) = {st.eObj[e] : e \in DOMAIN st.eObj} /\ Len(P.oe) = Len(P.eo)
   /\ \A e \in DOMAIN st.eObj : Val(P.oe, st.eObj[e]) = e
-ProjOK == ProjRec([nodes |-> nodes', edges |-> edges', eObj |-> eObj'], S)
+ProjOK == ProjRec([nodes |-> nodes', edges |-> edges', eObj |-> eObj', root |-> root'], S)
 
 Out == res' = Ev.r
 
 TReset == /\ IsEvent("Reset")
-          /\ nodes' = {} /\ edges' = <<>> /\ nextN' = 0 /\ nextE' = 0 /\ eObj' = <<>>
+          /\ nodes' = {} /\ edges' = <<>> /\ nextN' = 0 /\ nextE' = 0 /\ eObj' = <<>> /\ root' = 0
           /\ acyclic' = TRUE /\ cacheV' = FALSE /\ cacheR' = FALSE /\ res' = "ok"
           /\ saved' = <<>> /\ cur' = 0
 
-Load(st) == /\ nodes' = st.nodes /\ edges' = st.edges /\ nextN' = st.nextN /\ nextE' = st.nextE /\ eObj' = st.eObj
+Load(st) == /\ nodes' = st.nodes /\ edges' = st.edges /\ nextN' = st.nextN /\ nextE' = st.nextE /\ eObj' = st.eObj /\ root' = st.root
             /\ acyclic' = st.acyclic /\ cacheV' = st.cacheV /\ cacheR' = st.cacheR /\ res' = "ok"
 TSwitch == /\ IsEvent("Switch") /\ Ev.to \in DOMAIN saved /\ Ev.to # cur
            /\ saved' = [o \in (DOMAIN saved \cup {cur}) \ {Ev.to} |-> IF o = cur THEN Rec ELSE saved[o]]
